@@ -121,7 +121,10 @@ def runDrive (s : St) : String :=
             -- the order in which stack versions are advanced (restarted from version 0 on resume)
             -- BOTH trees must be erroneous: an error-free canonical tree against an erroneous drive tree is never excused
             let err := hasErr canon.root && hasErr t.root
-            let cause := if s.kind == "utf16" && err then "utf16-error-recovery"
+            -- UTF-16BE with a supplementary-plane character: U16_NEXT_BE does not byte-swap the trail unit
+            let supp := s.doc.toList.any (· ≥ 0xF0)
+            let cause := if s.kind == "utf16" && s.param.startsWith "u16be" && supp then "utf16be-surrogate-pair"
+              else if s.kind == "utf16" && err then "utf16-error-recovery"
               else if s.kind == "cancel-resume" && err then "resume-error-recovery"
               else if s.kind == "cancel-resume" && sameModuloStates canon.root t.root then "resume-token-parse-state"
               else "other"
@@ -139,6 +142,11 @@ def step (s : St) (line : String) : IO St := do
     let bytes := if hx == "-" then [] else unhexBytes hx
     let (cp, n) := if bytes.isEmpty then (DECODE_ERROR, 0) else decodeUtf8 bytes
     IO.println s!"{id} dec={cp},{n}"; return s
+  | ["E", id, en, hx] =>
+    let bytes := if hx == "-" then [] else unhexBytes hx
+    let (cp, n) := decodeUtf16 (en == "be") bytes true
+    let (cpA, nA) := decodeUtf16 (en == "be") bytes false
+    IO.println s!"{id} dec16={cp},{n} asis={cpA},{nA}"; return s
   | ["case", id, _lang] => return { cid := id }
   | ["doc", h] => return { s with doc := (if h == "-" then [] else unhexBytes h).toArray }
   | ["canon"] => return { s with mode := 1, canon := #[] }
